@@ -115,6 +115,21 @@ Example c20_extend_json_example :
   key_strings (blank_json_keys j) = [placeholder; placeholder; placeholder; placeholder; ""].
 Proof. split; vm_compute; reflexivity. Qed.
 
+(* THE OUTPUT IS A VALUE.  dump_endpoint is a function to a JSON value: what an endpoint hands out is determined at the
+   moment it returns and nothing that runs later can change it.  In the implementation the bytes must therefore be fresh
+   (src_dump_fresh_bytes, read from DumpJSON by go/ast: the lock pair, redactedCopy, json.Marshal and RedactDumpJSON are the
+   only calls, the unlock the only deferred one - no pooled buffer, nothing released that the result may alias), and on every
+   run the bytes every dump API returned are RETAINED BY REFERENCE while the other serializers run (transferConfig,
+   InheritMosnconfig, DumpConfig, further dumps), re-compared with the copy taken at return time and re-scanned for the
+   planted keys; the handler is also read in 48-byte pieces with the persist path running in between. *)
+Theorem c20_source_dump_fresh_bytes : src_dump_fresh_bytes = true.
+Proof. exact (eq_refl true). Qed.
+(* (e) an output handed out BY REFERENCE to a storage region that is recycled is refuted in the region model: after the
+   next serializer writes its (unredacted) document to that region, reading the response gives that document *)
+Theorem c20_output_by_reference_refuted : forall (A : Type) (st : store A) (r : N) (unredacted : A),
+  commit A st [(r, unredacted)] r = unredacted.
+Proof. exact output_by_reference_overwritten. Qed.
+
 (* THE TEXT, WHATEVER ITS SPELLING.  RedactDumpJSON is given a TEXT; the same member can be spelled in many ways in it
    (private\u005fkey, \u0050rivate_key, Private\u005FKey ... are the member private_key to every JSON decoder, and the tunnel_agent
    parser reads its TLS context from it).  The redaction is specified on the value the text DECODES to: sjson is a document
